@@ -38,12 +38,19 @@ def run(tier):
     chk = common.Check(PROP, tier, exes=["model_c06"])
     chk.cov["rule"] = ("INTCODEC: distinct (type, value, base, grouping) written and read back, distinct "
                        "(type, text) decoded, distinct texts tokenized")
+    import time
+    t0 = time.time()
     model_ok = common.proof_gate(chk, search)
+    t1 = time.time()
     binary, log = c06_int.build()
     if binary is None:
         raise common.InfraError("intcodec driver does not compile: " + log[-2000:])
     c06_int.run_int(chk, tier, model_ok, binary)
+    t2 = time.time()
     run_txt(chk, tier, model_ok, "C06-txt")
+    t3 = time.time()
+    chk.extra["phase_seconds"] = {"lean_build_and_audit": round(t1 - t0, 1), "intcodec": round(t2 - t1, 1),
+                                  "txt": round(t3 - t2, 1)}
     return chk.finish()
 
 
